@@ -41,12 +41,12 @@ CONTRACTS = {
     "AtLeast.compound_propositions": {"props": ["C01", "C03", "C04", "C05", "C08", "C10"], "why": "children that are not puan.variable"},
     "AtLeast.atomic_propositions": {"props": ["C01", "C03", "C04", "C05", "C08", "C10"], "why": "children that are puan.variable"},
     "AtLeast.flatten": {"props": ["C01", "C03", "C04", "C05", "C10", "C14", "C15"], "why": "self + all descendants, de-duplicated, sorted"},
-    "AtLeast._dependencies": {"props": ["C10"], "why": "complete edge relation: (id, ids of all children) for every compound"},
-    "AtLeast.errors": {"props": ["C10"],
-                       "why": "4 labels <-> 4 checks; cycle check = TopologicalSorter(dict(_dependencies())).prepare() with exception => True; "
+    "AtLeast._dependencies": {"props": ["C01", "C03", "C05", "C08", "C10", "C16"], "why": "(premise of every property stated over validated models) complete edge relation: (id, ids of all children) for every compound"},
+    "AtLeast.errors": {"props": ["C01", "C03", "C05", "C08", "C10", "C16"],
+                       "why": "(which models count as validated is the premise of C01/C03/C05/C08/C16) 4 labels <-> 4 checks; cycle check = TopologicalSorter(dict(_dependencies())).prepare() with exception => True; "
                               "definition-uniqueness checks compare the number of distinct definition keys with the number of distinct ids "
                               "(keys are holes judged by rule E7); duplicate edge check over (parent id, child id)"},
-    "AtLeast.__hash__": {"props": ["C10"], "why": "hash over (variable, sign, value, children): the definition key used by check #3"},
+    "AtLeast.__hash__": {"props": ["C01", "C03", "C05", "C08", "C10", "C16"], "why": "(premise: validation key) hash over (variable, sign, value, children): the definition key used by check #3"},
     "AtLeast.__lt__": {"props": ["C10"], "why": "ordering by id"},
     "AtLeast._id_generator": {"props": ["C10", "C16"], "why": "generated id = prefix + sha256(children ids + value + sign): deterministic in the definition"},
     "AtLeast.__eq__": {"props": ["C09", "C10"], "why": "equality used by ==; (its adequacy as a de-duplication key is judged by E7 under C10)"},
